@@ -989,6 +989,18 @@ func (x *Exec) atCallOrdinary(fr *Frame, st *State, key string) {
 					x.assumeIn(st, t)
 				}
 			}
+			if ac.Set != "" && x.clauseActive(*ac.SetE) {
+				// ghost assignment: the ghost variable takes the value of the expression at this call
+				if g, ok := x.w.specs.Ghosts[ac.Set]; !ok {
+					x.bindingFailure(fmt.Sprintf("at call %s: set %s: not a ghost variable", ac.Callee, ac.Set))
+				} else if gs, err := x.specSort(g.Type); err != nil {
+					x.bindingFailure(fmt.Sprintf("at call %s: set %s: %v", ac.Callee, ac.Set, err))
+				} else if v, err := x.evalExpr(fr, st, ac.SetE.E); err != nil || len(v.L) != 1 {
+					x.bindingFailure(fmt.Sprintf("at call %s: set %s: %v", ac.Callee, ac.Set, err))
+				} else {
+					x.heapSet(st, "G$"+ac.Set, gs, v.One())
+				}
+			}
 			if ac.Assume != nil && x.clauseActive(*ac.Assume) {
 				if t, err := x.evalBool(fr, st, ac.Assume.E); err == nil {
 					x.assumeIn(st, t)
@@ -1114,7 +1126,34 @@ func (x *Exec) execCall(fr *Frame, st *State, instr ssa.Instruction, c *ssa.Call
 	for id := range x.escaped {
 		ms.cells[id] = true
 	}
+	var preOpaque *State
+	if spec != nil && spec.Opaque && len(spec.Effects) > 0 {
+		preOpaque = st.clone()
+		// an opaque callee may still define ghost updates (`effect`): those ghosts change with the call
+		for _, cl := range spec.Effects {
+			for _, tok := range tokRe.FindAllString(cl.Src, -1) {
+				if g, ok := x.w.specs.Ghosts[tok]; ok {
+					if gs, err := x.specSort(g.Type); err == nil {
+						ms.heap["G$"+tok] = gs
+					}
+				}
+			}
+		}
+	}
 	x.havoc(fr, st, ms, "call")
+	if preOpaque != nil {
+		ectx := &EvalCtx{x: x, names: map[string]Val{}, st: st, old: preOpaque, oldNames: map[string]Val{}}
+		for _, e := range spec.Effects {
+			if !x.clauseActive(e) {
+				continue
+			}
+			if v, err := ectx.eval(e.E, sortBool); err == nil && len(v.L) == 1 {
+				x.assumeIn(st, v.One())
+			} else {
+				x.bindingFailure(fmt.Sprintf("effect %q of opaque %s: %v", e.Src, spec.Key, err))
+			}
+		}
+	}
 	x.assume1("call to " + key + " treated as arbitrary (result unconstrained, writes only through its pointer/slice arguments)")
 	sig := c.Signature()
 	if res != nil {
